@@ -960,7 +960,6 @@ def check_singular(ctx, corr, n):
             corr.count("sc_with_removal")
         if impl[i] != model[i]:
             corr.disagree("sc", c, impl[i], model[i], "singular_coords: flag / statuses / removed ids")
-            continue
         if not t or t[0] != "sing":
             corr.fail("singular_coords op not answered: " + out, rep, "LocalNetwork::singular_coords")
             continue
